@@ -3,6 +3,7 @@ package main
 import (
 	"context"
 	"fmt"
+	"math/rand"
 	"sort"
 	"time"
 
@@ -142,7 +143,7 @@ func graffiti(tag byte) common.Root {
 // p0: S1, phase0 only, 20 validators (validator 19 never activates), 26 slots with finality,
 // skipped slots (incl. an epoch start), an exit, a proposer slashing and an attester slashing on
 // chain, a stale branch (forks before the finalized checkpoint) and a side branch.
-func buildP0(forks chain.ForkSchedule) (*Build, error) {
+func buildP0(forks chain.ForkSchedule, rng *rand.Rand) (*Build, error) {
 	spec := chain.NewSpec(chain.PresetS1, forks)
 	bal := make([]common.Gwei, 20)
 	bal[19] = 16000
@@ -150,7 +151,16 @@ func buildP0(forks chain.ForkSchedule) (*Build, error) {
 	if err != nil {
 		return nil, err
 	}
+	// three empty slots between 9 and 23, seed dependent (the first seed keeps an empty epoch start)
 	skip := map[common.Slot]bool{10: true, 16: true, 22: true}
+	if rng != nil && rng.Intn(3) != 0 {
+		skip = map[common.Slot]bool{}
+		for len(skip) < 3 {
+			skip[common.Slot(10+rng.Intn(13))] = true
+		}
+		delete(skip, 11) // slots that carry the on-chain operations
+		delete(skip, 13)
+	}
 	mod := func(st *chain.StepPlan) {
 		switch st.Slot {
 		case 9:
@@ -219,13 +229,16 @@ func buildNofin(length common.Slot) (*Build, error) {
 }
 
 // alt: S1 with altair from genesis, 16 validators, sync committee of 8 (period: 8 slots).
-func buildAlt(length common.Slot) (*Build, error) {
+func buildAlt(length common.Slot, rng *rand.Rand) (*Build, error) {
 	spec := chain.NewSpec(chain.PresetS1, chain.Forks(0, chain.FarFuture, chain.FarFuture, chain.FarFuture))
 	b, c, err := newBuild(spec, chain.GenesisOpts{Validators: 16})
 	if err != nil {
 		return nil, err
 	}
 	skip := map[common.Slot]bool{6: true, 12: true}
+	if rng != nil && rng.Intn(3) != 0 {
+		skip = map[common.Slot]bool{common.Slot(2 + rng.Intn(5)): true, common.Slot(8 + rng.Intn(5)): true}
+	}
 	if err := b.grow(c, "main", honestSteps(1, length-2, skip, nil)); err != nil {
 		return nil, err
 	}
